@@ -119,6 +119,27 @@ Theorem C10_stamps_once : forall hooks ops init s l i o s' t r,
 Proof. exact stamps_once. Qed.
 Print Assumptions C10_stamps_once.
 
+(* What the tasks are told.  The argument map that a START_ACTIVITY reaching RUNNING pushes to the
+   tasks carries the new run number, the new start stamp and the CLEARED end stamp (present and
+   empty, so that a task does not keep the end stamp of the previous run), and no completion
+   stamp - whatever the variables held before.  Which variables are in the map is read from
+   StartActivityTransition.do / StopActivityTransition.do by the translator (gen/Gen_StartArgs.v). *)
+Theorem C10_start_push_fresh : forall hooks orc b s s' t r d,
+  transition hooks orc START_ACTIVITY b s = (s', t, r) -> dst_of START_ACTIVITY (e_st s) = Some d ->
+  e_st s' <> e_st s ->
+  push_of START_ACTIVITY (e_rv s') =
+  Some (mkPush (Some (Some (N.succ (e_ctr s)))) (Some (SSet (e_clock s))) None (Some SEmpty) None).
+Proof. exact start_push_fresh. Qed.
+Print Assumptions C10_start_push_fresh.
+
+(* ... and a STOP_ACTIVITY reaching CONFIGURED has pushed the end stamp of this run. *)
+Theorem C10_stop_push_end : forall hooks orc b s s' t r d,
+  transition hooks orc STOP_ACTIVITY b s = (s', t, r) -> dst_of STOP_ACTIVITY (e_st s) = Some d ->
+  e_st s' <> e_st s -> rv_soeor (e_rv s) <> SAbsent ->
+  exists a, push_of STOP_ACTIVITY (e_rv s') = Some (mkPush None None None (Some (SSet a)) None).
+Proof. exact stop_push_end. Qed.
+Print Assumptions C10_stop_push_end.
+
 (* Non-vacuity: START, STOP, START again with probes at before_START -1 / 0 and after_STOP +1:
    run numbers 1 and 2; the -1 probe of the second START sees no number and the stamps of run 1,
    the 0 probe sees number 2 and fresh (empty) end stamps; the after_STOP+1 probe still sees the
